@@ -4,4 +4,4 @@ CONSTANTS
   MaxSeg = 2
   MaxDepth = 2
   Mut = "none"
-INVARIANTS FirstMatch NoPrefix MatcherAgrees MapThenRoute PoolWhole
+INVARIANTS FirstMatch NoPrefix MatcherAgrees MapThenRoute PoolWhole PoolFirst
